@@ -181,6 +181,9 @@ def hook_action(hid, when, mnem, ret="unhandled", stop=False, try_register=False
         does.append({"op": "try_register", "when": "before", "mnem": mnem})
         does.append({"op": "try_register", "when": "after", "mnem": "Nop"})
         does.append({"op": "try_handle_syscalls"})
+        # ... and for mnemonics that complete only if a hook exists: a REFUSED registration must leave no trace
+        for m2 in ("Syscall", "Int", "Int3", "Int1"):
+            does.append({"op": "try_register", "when": "before" if (hid + len(m2)) % 2 else "after", "mnem": m2})
     return {"op": "hook", "when": when, "mnem": mnem, "hid": hid, "ret": ret, "stop": stop, "does": does, "mark": mark}
 
 
